@@ -255,6 +255,111 @@ func (h *c01Harness) eval(in c01Input, cfg *c01Config, opt c01Opt) (S, C, R c01O
 	return S, C, R
 }
 
+// evalDual: ONE dual-stack message (v4_support and v6_support, IPv4 registrant) through the real
+// parseRegMessage; both returned registrations are observed - in both orders, the message being ingested
+// once per order - and each is judged against the client and the reference of its family.  The two
+// registrations come from one message and one secret: nothing one of them derives may depend on whether
+// the identifier of its sibling (or of the same registration from the earlier ingest) was computed before.
+func (h *c01Harness) evalDual(in c01Input, cfg *c01Config, opt c01Opt) {
+	rec := h.rec
+	in.V6 = false
+	opt.keys = nil
+	rec.Case(map[string]interface{}{"dual_stack": true, "in": in, "cfg": cfg})
+	rec.Count("evaluations", 1)
+	rec.Count("dual_stack_cases", 1)
+	p := h.prepare(in, cfg, opt)
+	msg := h.stationMsg(in, true, true, p.secret, p.tp)
+
+	type side struct {
+		in, eff c01Input
+		R, Rk   c01Out
+		C       c01Out
+		fl      *c01Flight
+	}
+	var sides [2]*side // 0 = v4, 1 = v6
+	for i, v6 := range []bool{false, true} {
+		sd := &side{in: in, eff: p.eff}
+		sd.in.V6, sd.eff.V6 = v6, v6
+		sd.R, sd.Rk = h.reference(sd.eff, cfg, p.known)
+		cl := p.cl
+		if i == 1 {
+			// a second client object for the second phantom, configured with what was actually registered
+			e2 := sd.in
+			e2.P = p.eff.P
+			cl = h.clientParams(e2, c01TypedParams(in.Tr, p.eff.P))
+		}
+		seed, dRand, err := c01RefKeys(p.secret, in.Lib)
+		if err != nil {
+			h.t.Fatalf("infrastructure: %v", err)
+		}
+		sd.C, sd.fl = h.clientDerive(sd.in, cfg.Groups, cl, seed, dRand, p.secret)
+		sides[i] = sd
+	}
+	// A family the station does not build although the reference derives it is acceptable only if its
+	// sibling must be refused (the pinned tree refused such a message as a whole, later trees keep the
+	// buildable half; the client gives up on both phantoms when one selection fails).  A family the
+	// station DOES build is always judged against the plain reference of that family.
+	var sib [2]c01Out
+	for i := range sides {
+		sib[i] = sides[i].R
+		if o := sides[1-i]; sib[i].Err == "" && o.R.Err != "" {
+			sib[i].Err = "sibling:" + o.R.Err
+		}
+	}
+
+	for _, order := range []string{"v4-first", "v6-first"} {
+		regs, class := h.stationParse(p.sel, msg)
+		var S [2]c01Out
+		var byFam [2]*DecoyRegistration
+		if class != "" {
+			S[0].Err, S[1].Err = class, class
+		} else {
+			ok := len(regs) <= 2
+			for _, r := range regs {
+				if r == nil {
+					continue
+				}
+				k := 1
+				if r.PhantomIp.To4() != nil {
+					k = 0
+				}
+				if byFam[k] != nil {
+					ok = false
+				}
+				byFam[k] = r
+			}
+			if !ok {
+				rec.Violation(fmt.Sprintf("dual-stack:station-returns-wrong-registration-set:%s:lib%d", in.Tr, in.Lib),
+					"a dual-stack message yielded more than one registration of a family",
+					map[string]interface{}{"in": in, "cfg": cfg, "n": len(regs)})
+				continue
+			}
+			seq := []int{0, 1}
+			if order == "v6-first" {
+				seq = []int{1, 0}
+			}
+			for _, k := range seq {
+				if byFam[k] == nil {
+					S[k].Err = "dual-stack-family-not-built"
+					continue
+				}
+				S[k] = h.stationObserve(sides[k].in, byFam[k])
+			}
+		}
+		for k, sd := range sides {
+			fam := []string{"v4", "v6"}[k]
+			R := sd.R
+			if S[k].Err != "" {
+				R = sib[k]
+			}
+			j := &c01Judgement{in: sd.in, eff: sd.eff, cfg: cfg, S: S[k], C: sd.C, R: R, Rk: sd.Rk, fl: sd.fl, normalised: p.normalised,
+				tag: fmt.Sprintf("%s:lib%d:%s:identifier-order(%s)", in.Tr, in.Lib, fam, order), refName: "reference", pre: "dual-stack:",
+				extra: map[string]interface{}{"identifier_computed_in_order": order, "sibling_registration": S[1-k]}}
+			h.judge(j)
+		}
+	}
+}
+
 // c01Judgement carries one (family of a) case into the comparisons.
 type c01Judgement struct {
 	in, eff    c01Input
@@ -387,7 +492,7 @@ func (h *c01Harness) judge(j *c01Judgement) {
 			viol("station!=client:"+f+":"+tag, "station and client derive a different "+f, detail())
 		}
 	case S.Err != "" && C.Err == "":
-		legit := R.Err == c01ErrGen || R.Err == c01ErrPrefixLib || R.Err == c01ErrPortParams
+		legit := R.Err == c01ErrGen || R.Err == c01ErrPrefixLib || R.Err == c01ErrPortParams || strings.HasPrefix(R.Err, "sibling:")
 		if !legit && R.Err != "" {
 			viol("client-derives-where-station-refuses:"+R.Err+":"+tag,
 				"the client library derives a phantom for inputs on which station and reference refuse", detail())
@@ -413,7 +518,7 @@ func (h *c01Harness) judge(j *c01Judgement) {
 	rec.Distinct("param_combinations", pk)
 	rec.Distinct("configurations", fmt.Sprint(cfg.Groups))
 	if S.Err == "" && R.Err == "" && C.Err == "" {
-		rec.Distinct("nontrivial", in.Secret, pk, in.Gen, fmt.Sprint(cfg.Groups))
+		rec.Distinct("nontrivial", in.Secret, pk, in.Gen, fmt.Sprint(cfg.Groups), j.pre)
 		rec.Count("three_way_compared", 1)
 		if rec.WantSample() {
 			rec.Sample(map[string]interface{}{"in": in, "groups": cfg.Groups, "derived_by_all_three": S})
@@ -1036,8 +1141,13 @@ func TestVerifC01Vectors(t *testing.T) {
 		rec.Count("reference_validated_on_vectors", 1)
 	}
 	// (b) the current tree on the frozen inputs: station vs frozen answer vs client
-	for _, v := range vecs {
+	for i, v := range vecs {
 		h.eval(*v.In, cfgs[v.In.Cfg], c01Opt{frozen: true})
+		if i%3 == 0 {
+			// the same frozen input sent as ONE dual-stack message (both families judged against the reference,
+			// which has just been shown to equal the frozen answers)
+			h.evalDual(*v.In, cfgs[v.In.Cfg], c01Opt{})
+		}
 	}
 	rec.Exhaustive(fmt.Sprintf("all %d frozen vectors (incl. every prefix id x randomise x flush policy x lib 3,4 and transport x lib 0-4 x family x parameter shape)", len(vecs)))
 	h.repoExpectations(t)
@@ -1090,6 +1200,20 @@ func TestVerifC01Random(t *testing.T) {
 	rec.Count("port_sampler_boundary_cases", len(bc))
 	cases = append(cases, bc...)
 	rec.Exhaustive("every prefix id (0-9) x randomise (unset,false,true) x flush policy (unset,0,1,2) x lib 3,4; transport x lib 0-4 x family x parameter shape (absent, empty, randomise on/off)")
+	// dual-stack grid: transport x library version x parameter shape, one message carrying both families
+	var duals []c01Input
+	{
+		rnd := c01Randomising(cfgs)
+		for _, tr := range c01Transports {
+			for lib := uint32(0); lib < 5; lib++ {
+				for _, p := range []c01Params{{Kind: "absent"}, {Kind: "empty"}, {Kind: "set", Rand: proto.Bool(true)}, {Kind: "set", Rand: proto.Bool(false)}} {
+					c := rnd[r.Intn(len(rnd))]
+					duals = append(duals, c01Input{Secret: c01GenSecret(r, lib), Lib: lib, Gen: cfgs[c].Gen, Tr: tr, Cfg: c, P: p})
+				}
+			}
+		}
+		rec.Exhaustive("dual-stack messages: transport x lib 0-4 x parameter shape (absent, empty, randomise on/off), both identifier orders")
+	}
 	for i := 0; i < total; i++ {
 		var in c01Input
 		var cfg *c01Config
@@ -1110,6 +1234,14 @@ func TestVerifC01Random(t *testing.T) {
 		} else {
 			in = c01GenCase(r, cfgs, false)
 			cfg = &cfgs[in.Cfg]
+		}
+		if dual := i >= len(cases) && i < len(cases)+len(duals); dual || (i >= len(cases)+len(duals) && r.Intn(6) == 0) {
+			if dual {
+				in = duals[i-len(cases)]
+				cfg, opt.sel = &cfgs[in.Cfg], nil
+			}
+			h.evalDual(in, cfg, opt)
+			continue
 		}
 		// library version 4 with a 32-byte random secret: let the real client key agreement make the secret
 		if in.Lib == 4 && len(in.Secret) == 64 && r.Intn(2) == 0 {
